@@ -25,7 +25,10 @@ def small_tree(idx):
     bs = 4096
     if idx == 0:
         t = {b"": Node("dir", 0o755), b"dir": Node("dir", 0o750, uid=1, gid=2),
-             b"dir/file": Node("file", 0o644, data=[("rand", 1, 5000)], xattrs={b"user.a": b"b"}),
+             b"dir/file": Node("file", 0o644, data=[("rand", 1, 5000)], xattrs={b"user.a": b"b", b"user.b": b"second", b"user.c": b"third"}),
+             # a hard link whose own path and whose target path both need a long-name record in a tar archive
+             b"L" * 100: Node("dir", 0o755), b"L" * 100 + b"/target-of-the-link": Node("file", 0o644, data=[("bytes", b"linked")]),
+             b"L" * 100 + b"/zz-link": Node("file", link_to=b"L" * 100 + b"/target-of-the-link"),
              b"dir/sparse": Node("file", 0o600, data=[("zero", 4096), ("bytes", b"tail")]),
              b"dir/dup": Node("file", 0o644, data=[("rand", 1, 5000)]),
              b"lnk": Node("slink", 0o777, target=b"dir/file"), b"dev": Node("cdev", 0o600, dev=(1, 3)),
@@ -41,11 +44,15 @@ def small_tree(idx):
         t[b"big"] = Node("file", 0o644, data=[("rep", b"abc", 9 * bs + 5)])
         t[b"holes"] = Node("file", 0o644, data=[("zero", 2 * bs), ("rand", 5, bs), ("zero", bs), ("bytes", b"end")])
         t[b"hl"] = Node("file", link_to=b"big")
+        t[b"zdup"] = Node("file", 0o644, data=[("rand", 0, 300)])      # same content as d0/file-...-000
         t[b"lnk"] = Node("slink", 0o777, target=b"d0")
         t[b"dev"] = Node("bdev", 0o600, dev=(8, 1))
     elif idx == 3:
         import random
-        t, _ = gentree.gen_tree(random.Random(13), bs=bs, max_entries=80)
+        for seed in range(13, 200):
+            t, _ = gentree.gen_tree(random.Random(seed), bs=bs, max_entries=80)
+            if len(t) >= 50:
+                break
         for n in t.values():
             if n.uid == 0xFFFFFFFF:
                 n.uid = 1
@@ -60,6 +67,9 @@ def small_tree(idx):
             t[b"f%02d" % i] = Node("file", 0o644, data=[("rand", i, 900 + 700 * i)])
         t[b"big"] = Node("file", 0o644, data=[("rep", b"abc", 3 * bs + 5)])
         t[b"zt"] = Node("file", 0o644, data=[("zero", 100)])
+        # duplicates of tail ends whose fragment block is already on disk when they arrive (read back through pread)
+        t[b"zdup0"] = Node("file", 0o644, data=[("rand", 0, 900)])
+        t[b"zdup1"] = Node("file", 0o644, data=[("rand", 1, 1600)])
     return t
 
 
